@@ -155,15 +155,9 @@ def turned_by(p, o2, k):
 
 
 # ----------------------------------------------------------------------------- HexBlock.rotate, every integer k
-@lemma(gen=KGEN, stubs=HASFLAGS)
-def hex_block_rotate_for_every_integer_step_count(
-    k: int, pitch: float, cornersUp: bool, i: int, j: int, m: int, n: int, cx: float, cy: float, cz: float,
-    c0: float, c1: float, c2: float, c3: float, c4: float, c5: float,
-    e0: float, e1: float, e2: float, e3: float, e4: float, e5: float,
-    dx: float, dy: float, o0: float, o1: float, o2: float,
-):
+def check_block_rotation(k, pitch, cornersUp, i, j, m, n, cx, cy, cz, corner, ev, dx, dy, o0, o1, o2):
     """HexBlock.rotate(k x pi / 3) for EVERY integer k (symbolic; only the residue k mod 6 is split into its six cases),
-    both grid orientations, every pitch, every content.
+    every pitch, every content; the grid orientation is fixed by the calling lemma (both are covered).
 
     pins (an IndexLocation child and both entries of a MultiIndexLocation child): the cell CENTRE is rotated by k x 60
     degrees counter-clockwise, axial index and grid kept, and getPinCoordinates() (real; clad children selected through
@@ -184,9 +178,8 @@ def hex_block_rotate_for_every_integer_step_count(
     pins = new(Composite, spatialLocator=multi, isClad=True)
     free = new(Composite, spatialLocator=CoordinateLocation(cx, cy, cz, g), isClad=False)
     nowhere = new(Composite, spatialLocator=None, isClad=False)
-    corner = [c0, c1, c2, c3, c4, c5]
-    edge = np.array([e0, e1, e2, e3, e4, e5])
-    p = params(o0, o1, o2, dx, dy, list(corner), np.array([e0, e1, e2, e3, e4, e5]))
+    edge = np.array(list(ev))
+    p = params(o0, o1, o2, dx, dy, list(corner), np.array(list(ev)))
     b = new(HexBlock, spatialGrid=g, _children=[pin, pins, free, nowhere], p=p)
     x1, y1 = g.getCoordinates((i, j, 0))[:2]
     x2, y2 = g.getCoordinates((m, n, 0))[:2]
@@ -226,6 +219,29 @@ def hex_block_rotate_for_every_integer_step_count(
     assert turned_by(p, o2, k), "orientation advanced by k x 60 degrees modulo 360"
 
 
+@lemma(gen=KGEN, stubs=HASFLAGS)
+def hex_block_rotate_for_every_integer_step_count_corners_up_grid(
+    k: int, pitch: float, i: int, j: int, m: int, n: int, cx: float, cy: float, cz: float,
+    c0: float, c1: float, c2: float, c3: float, c4: float, c5: float,
+    e0: float, e1: float, e2: float, e3: float, e4: float, e5: float,
+    dx: float, dy: float, o0: float, o1: float, o2: float,
+):
+    """check_block_rotation (see its docstring) for a block whose pin grid is corners-up (the grid a flats-up hex block
+    gets from autoCreateSpatialGrids)"""
+    check_block_rotation(k, pitch, True, i, j, m, n, cx, cy, cz, [c0, c1, c2, c3, c4, c5], [e0, e1, e2, e3, e4, e5], dx, dy, o0, o1, o2)
+
+
+@lemma(gen=KGEN, stubs=HASFLAGS)
+def hex_block_rotate_for_every_integer_step_count_flats_up_grid(
+    k: int, pitch: float, i: int, j: int, m: int, n: int, cx: float, cy: float, cz: float,
+    c0: float, c1: float, c2: float, c3: float, c4: float, c5: float,
+    e0: float, e1: float, e2: float, e3: float, e4: float, e5: float,
+    dx: float, dy: float, o0: float, o1: float, o2: float,
+):
+    """check_block_rotation (see its docstring) for a block whose pin grid is flats-up"""
+    check_block_rotation(k, pitch, False, i, j, m, n, cx, cy, cz, [c0, c1, c2, c3, c4, c5], [e0, e1, e2, e3, e4, e5], dx, dy, o0, o1, o2)
+
+
 def small_block(g, i, j, cx, cy, corner, dx, dy, o2):
     pin = new(Composite, spatialLocator=IndexLocation(i, j, 0, g))
     free = new(Composite, spatialLocator=CoordinateLocation(cx, cy, 0.0, g))
@@ -246,18 +262,13 @@ def same_block_state(s1, s2):
     return ok and (eq(d, round(d)) if NATIVE else d == int(d))
 
 
-@lemma(gen=KGEN)
-def hex_block_rotations_compose_additively(
-    a: int, b: int, i: int, j: int, cx: float, cy: float,
-    c0: float, c1: float, c2: float, c3: float, c4: float, c5: float, dx: float, dy: float, o2: float,
-):
-    """rotate(a x 60) then rotate(b x 60) leaves the state rotate((a + b) x 60) leaves, for ALL integers a, b
-    (symbolic; the residues a mod 6, b mod 6 are split: 36 cases): pin cell, free-child coordinates, corner vector,
-    displacement identical, orientation identical modulo 360.  Six single steps are the identity (a + b = 6 t)."""
+def check_composition(a, b, i, j, cx, cy, corner, dx, dy, o2):
+    """rotate(a x 60) then rotate(b x 60) leaves the state rotate((a + b) x 60) leaves, for integers a, b (symbolic;
+    the residues a mod 6, b mod 6 are split): pin cell, free-child coordinates, corner vector, displacement identical,
+    orientation identical modulo 360.  A total of a multiple of six steps is the identity."""
     choose(a % 6, 0, 5)
     choose(b % 6, 0, 5)
     g = hexgrid(1.0, True)
-    corner = [c0, c1, c2, c3, c4, c5]
     two = small_block(g, i, j, cx, cy, corner, dx, dy, o2)
     one = small_block(g, i, j, cx, cy, corner, dx, dy, o2)
     two[0].rotate(a * math.pi / 3)
@@ -267,6 +278,26 @@ def hex_block_rotations_compose_additively(
     if (a + b) % 6 == 0:
         ref = small_block(g, i, j, cx, cy, corner, dx, dy, o2)
         assert same_block_state(two, ref), "a total of a multiple of six steps is the identity"
+
+
+@lemma(gen=KGEN)
+def hex_block_rotations_compose_additively_first_residues_0_to_2(
+    a: int, b: int, i: int, j: int, cx: float, cy: float,
+    c0: float, c1: float, c2: float, c3: float, c4: float, c5: float, dx: float, dy: float, o2: float,
+):
+    """check_composition for ALL integers a, b with a mod 6 in {0, 1, 2} (the other half: next lemma; 18 cases each)"""
+    assume(a % 6 <= 2)
+    check_composition(a, b, i, j, cx, cy, [c0, c1, c2, c3, c4, c5], dx, dy, o2)
+
+
+@lemma(gen=KGEN)
+def hex_block_rotations_compose_additively_first_residues_3_to_5(
+    a: int, b: int, i: int, j: int, cx: float, cy: float,
+    c0: float, c1: float, c2: float, c3: float, c4: float, c5: float, dx: float, dy: float, o2: float,
+):
+    """check_composition for ALL integers a, b with a mod 6 in {3, 4, 5}"""
+    assume(a % 6 >= 3)
+    check_composition(a, b, i, j, cx, cy, [c0, c1, c2, c3, c4, c5], dx, dy, o2)
 
 
 @lemma(gen=KGEN)
@@ -294,7 +325,7 @@ def full_turn_is_the_identity(
 # ----------------------------------------------------------------------------- the pieces
 @lemma(gen=KGEN)
 def boundary_parameters_all_roll_the_same_way(
-    rotNum: int,
+    rotNum: int, seven: bool,
     a0: float, a1: float, a2: float, a3: float, a4: float, a5: float,
     b0: float, b1: float, b2: float, b3: float, b4: float, b5: float,
     s: float, t: int, z0: float, z1: float, z2: float, z3: float, z4: float, z5: float,
@@ -303,8 +334,8 @@ def boundary_parameters_all_roll_the_same_way(
 
     EVERY parameter located at CORNERS or EDGES that holds six entries - list or array - has the value of entry q at
     entry (q + rotNum) mod 6 afterwards (corners and edges in the same direction, kind of container kept); a parameter
-    that is None, a scalar, an empty list or a list of another length is left alone; a six-vector that is NOT located
-    on the boundary is left alone.
+    that is None, a scalar, an empty list or a list / array of another length (five, seven) is left alone; a six-vector
+    that is NOT located on the boundary is left alone.
     """
     assume(0 <= rotNum and rotNum <= 5)
     va = [a0, a1, a2, a3, a4, a5]
@@ -315,7 +346,7 @@ def boundary_parameters_all_roll_the_same_way(
         THcornTemp=list(va),
         cornerFastFlux=np.array(list(vb)),
         pointsCornerFastFluxFr=list(vb),
-        pointsCornerDpa=[],
+        pointsCornerDpa=np.array([a0, a1, a2, a3, a4, a5, s]) if seven else [],
         pointsCornerDpaRate=s,
         THedgeTemp=np.array(list(va)),
         pointsEdgeFastFluxFr=[a0, a1, a2, a3, a4],
@@ -333,7 +364,10 @@ def boundary_parameters_all_roll_the_same_way(
         w = (q + rotNum) % 6
         assert eq(p.THcornTemp[w], va[q]) and eq(p.cornerFastFlux[w], vb[q]) and eq(p.pointsCornerFastFluxFr[w], vb[q])
         assert eq(p.THedgeTemp[w], va[q]) and eq(p.pointsEdgeDpa[w], vb[q]), "edges roll like corners"
-    assert isinstance(p.pointsCornerDpa, list) and len(p.pointsCornerDpa) == 0
+    if seven:
+        assert isinstance(p.pointsCornerDpa, np.ndarray) and eq(list(p.pointsCornerDpa), [a0, a1, a2, a3, a4, a5, s]), "seven entries: left alone"
+    else:
+        assert isinstance(p.pointsCornerDpa, list) and len(p.pointsCornerDpa) == 0
     assert eq(p.pointsCornerDpaRate, s) and p.pointsEdgeDpaRate == t
     assert eq(p.pointsEdgeFastFluxFr, [a0, a1, a2, a3, a4]), "five entries: no rotation defined, left alone"
     assert eq(p.pinMgFluxes, vz), "not a boundary parameter"
@@ -401,6 +435,20 @@ def block_without_pin_grid_rotates_its_data_only(
     assert turned_by(p, o2, k)
 
 
+@lemma(gen=dict(KGEN, t=(-30, 30)))
+def rotation_number_follows_the_orientation(k: int, t: int, dx: float, dy: float):
+    """orientation as setRotationNum(t) leaves it (t x 60 degrees about z, any integer t), then rotate(k x pi / 3) for
+    any integer k: getRotationNum() - the number of 60-degree steps counter-clockwise - is (t + k) mod 6"""
+    choose(k % 6, 0, 5)
+    p = params(0.0, 0.0, 0.0, dx, dy, None, None)
+    b = new(HexBlock, spatialGrid=None, _children=[], p=p)
+    b.setRotationNum(t)
+    assert eq(p.orientation[2], 60 * t)
+    assert eq(b.getRotationNum(), t % 6)
+    b.rotate(k * math.pi / 3)
+    assert eq(b.getRotationNum(), (t + k) % 6)
+
+
 @lemma(gen=KGEN)
 def child_with_a_foreign_locator_is_refused(k: int, i: int, j: int):
     """a child whose spatialLocator is not a location object makes the rotation fail loudly (TypeError)"""
@@ -426,7 +474,7 @@ def assembly_of(blocks):
 
 @lemma(gen=dict(KGEN, nb=(1, 3)))
 def hex_assembly_rotates_every_block_for_every_multiple_of_60(
-    k: int, nb: int, cornersUp: bool, i: int, j: int, m: int, n: int, cx: float, cy: float,
+    k: int, nb: int, i: int, j: int, m: int, n: int, cx: float, cy: float,
     c0: float, c1: float, c2: float, c3: float, c4: float, c5: float, dx: float, dy: float, o2: float, o3: float,
 ):
     """HexAssembly.rotate(k x pi / 3) for EVERY integer k (residue split), nb = 1..3 blocks (enumerated): never
@@ -435,7 +483,7 @@ def hex_assembly_rotates_every_block_for_every_multiple_of_60(
     orientation and data; the last one has no pin grid."""
     choose(k % 6, 0, 5)
     nb = choose(nb, 1, 3)
-    g = hexgrid(1.0, cornersUp)
+    g = hexgrid(1.0, True)
     corner = [c0, c1, c2, c3, c4, c5]
 
     def trio():
@@ -532,13 +580,13 @@ def orient_blocks_builds_the_missing_grids_only(o1: int, o2: int):
 
 
 # ----------------------------------------------------------------------------- utils/hexagon.py: the unit hexagon
-@lemma(gen={"k": (-12, 12)})
+@lemma(gen={"k": (-7, 7)})
 def unit_hexagon_corners_turn_rigidly(k: int):
-    """hexagon.corners(rotation in degrees), k = -12..12 enumerated: the six points lie at distance 1 / sqrt(3) (unit
+    """hexagon.corners(rotation in degrees), k = -7..7 enumerated: the six points lie at distance 1 / sqrt(3) (unit
     pitch) from the origin, corners(0) has flats perpendicular to the y axis, and corners(60 k)[q] is corners(0)[q]
     rotated by k x 60 degrees counter-clockwise - which is corners(0)[(q - k) mod 6], because THIS helper lists the
     corners clockwise from the upper right one."""
-    k = choose(k, -12, 12)
+    k = choose(k, -7, 7)
     base = hexagon.corners()
     turned = hexagon.corners(60 * k)
     assert len(base) == 6 and len(turned) == 6
